@@ -515,3 +515,35 @@ Theorem C06_example_site_ok_rejects :
   /\ site_ok (bs "threads", bs "fstring", bs "var", bs "thread_id") = true.
 Proof. exact site_ok_rejects. Qed.
 Print Assumptions C06_example_site_ok_rejects.
+
+(* ---- wave 8: handles, copies of handles, and psutil.PROCFS_PATH (C06/Handles.v) ---- *)
+From PV Require Import C06.Handles.
+
+(* For every history of PROCFS_PATH assignments, kernel changes on any mount, constructions, copies and calls: the model
+   (handle = pid + the _procfs_path read at construction; a copy shares the platform object) answers exactly what the
+   specification demands (every handle has the origin mount it was created on; a copy has its original's origin). *)
+Theorem C06_handle_history_exact : forall (R : Type) (deep : bool) (ops : list (hop R)) (s : hstate R),
+  snd (hrun R deep s ops) = snd (grun R deep (ghost_of R s) ops).
+Proof. exact hrun_exact. Qed.
+Print Assumptions C06_handle_history_exact.
+
+(* Every accessor on a copy (copy.copy outside or inside a oneshot() block; a deep copy when one is delivered) equals the
+   accessor on the original at every later point of every history, whatever PROCFS_PATH is by then. *)
+Theorem C06_copy_answers_as_original : forall (R : Type) (deep : bool) (s : hstate R) (o : hop R) (h : nat) (x : handle)
+    (ops : list (hop R)),
+  nth_error (hs R s) h = Some x ->
+  (o = OCopy R h \/ o = OCopyIn R h \/ (deep = true /\ o = ODeepCopy R h)) ->
+  snd (hstep R deep s o) = RHandle R (length (hs R s)) /\
+  snd (hstep R deep (fst (hrun R deep (fst (hstep R deep s o)) ops)) (OCall R (length (hs R s))))
+  = snd (hstep R deep (fst (hrun R deep (fst (hstep R deep s o)) ops)) (OCall R h)).
+Proof. exact copy_answers_as_original. Qed.
+Print Assumptions C06_copy_answers_as_original.
+
+(* A handle created while PROCFS_PATH = m answers, after any history, with what mount m publishes for its pid then. *)
+Theorem C06_handle_bound_to_creation_mount : forall (R : Type) (deep : bool) (s : hstate R) (pid : Z) (r : R)
+    (ops : list (hop R)),
+  world R s (cur R s) pid = Some r ->
+  snd (hstep R deep (fst (hrun R deep (fst (hstep R deep s (ONew R pid))) ops)) (OCall R (length (hs R s))))
+  = RAns R (world R (fst (hrun R deep (fst (hstep R deep s (ONew R pid))) ops)) (cur R s) pid).
+Proof. exact handle_bound_to_creation_mount. Qed.
+Print Assumptions C06_handle_bound_to_creation_mount.
